@@ -1,54 +1,283 @@
 ------------------------------ MODULE Validity ------------------------------
 (***************************************************************************)
-(* Every covariance handed out is a valid covariance (property C07), as a  *)
-(* data-growth machine over exact rationals.                               *)
+(* Every covariance handed out is a valid covariance (property C07).       *)
+(* Two parts, selected by Part.                                            *)
 (*                                                                         *)
-(* State: the training set as a sequence of indices into a pool of         *)
-(* integer feature rows (duplicates allowed: the same point may be         *)
-(* observed twice), for a linear-kernel GP with noise s2.  Action          *)
-(* AddObservation(p) appends pool point p.  In every reachable state:      *)
-(*   PriorPSD        K(x,x) of train and test points is symmetric PSD      *)
-(*   PosteriorPSD    the posterior covariance at the test points is PSD    *)
-(*   ReductionPSD    prior - posterior covariance is PSD (conditioning     *)
-(*                   never adds uncertainty)                               *)
+(* Part "growth": the data-growth machine over exact rationals.            *)
+(*                                                                         *)
+(* A linear-kernel GP over a pool of integer feature rows (duplicates      *)
+(* allowed: the same point may be observed twice).  The machine ranges     *)
+(* over                                                                    *)
+(*   WHAT is observed   obs: a sequence of [p, l]: pool point p observed   *)
+(*                      with its OWN noise level Levels[l];                *)
+(*   HOW it is added    every step adds a chunk of 1..MaxChunk             *)
+(*                      observations by one of Hows:                       *)
+(*         "fresh"        a new model on all the data,                     *)
+(*         "set"          set_train_data on the model at hand (+ the       *)
+(*                        likelihood's fixed noise replaced as a whole),   *)
+(*         "fantasy"      get_fantasy_model (hence fantasies of fantasies  *)
+(*                        when two such steps follow each other),          *)
+(*         "listfantasy"  get_fantasy_model of an IndependentModelList     *)
+(*                        holding the model,                               *)
+(*   the NOISE STRUCTURE of the likelihood (Liks):                         *)
+(*         "homo"           one learned noise S2 for every observation,    *)
+(*         "fixed"          each observation carries its own fixed noise,  *)
+(*         "fixed+learned"  own fixed noise plus the learned noise S2      *)
+(*                          (learn_additional_noise=True),                 *)
+(*         "hetero"         noise is a function of the input (level of the *)
+(*                          pool point),                                   *)
+(*   the prediction MODE (Modes): from K + noise of the likelihood at hand *)
+(*   ("exact") or from the root cache the fantasy steps update ("fast",    *)
+(*   fast_pred_var).  The denotation does not mention the mode.            *)
+(* The state carries the likelihood's BOOKKEEPING in code shape: `fixed`   *)
+(* is the vector stored by FixedGaussianNoise.  "fresh" / "set" store the  *)
+(* levels of all observations; the fantasy steps append the new levels to  *)
+(* the OLD STORED vector (get_fantasy_likelihood: cat([old_noise_covar.    *)
+(* noise, new_noise])); the learned noise is added on top when the         *)
+(* likelihood is applied.  The posterior covariance `cov` at the test      *)
+(* points is computed from that bookkeeping (NoiseVec), not from the       *)
+(* denotation.                                                             *)
+(*                                                                         *)
+(* In every reachable state:                                               *)
+(*   NoiseIsOwn       the noise attached to observation k is its own noise *)
+(*                    (OwnNoise): it does not depend on how or when the    *)
+(*                    observation - or any later one - was added; in       *)
+(*                    particular the learned noise is counted once;        *)
+(*   NoiseFloor       it is at least the smallest admissible noise;        *)
+(*   PriorPSD         K(x,x) of train and test points is symmetric PSD,    *)
+(*                    K + noise is PD;                                     *)
+(*   PosteriorPSD     the posterior covariance at the test points is PSD;  *)
+(*   ReductionPSD     prior - posterior covariance is PSD;                 *)
+(*   StepReductionPSD cov(before the step) - cov(after the step) is PSD    *)
+(*                    (conditioning never adds uncertainty, in any         *)
+(*                    direction);                                          *)
 (* and across every step                                                   *)
-(*   VarianceMonotone   adding an observation never increases a posterior  *)
-(*                      variance                                           *)
-(* The formulas are the denotation (LinAlg.tla CondCov); this is the       *)
-(* design-level statement.  The replay walks the same growth histories on  *)
-(* real kernels and geometries and checks eigenvalues in float64.          *)
+(*   VarianceMonotone adding observations never increases a posterior      *)
+(*                    variance.                                            *)
+(* Hows fall into two bookkeeping classes ("fresh" / "set" replace the      *)
+(* stored vector, the fantasy steps append to it).  The exact run ranges   *)
+(* over one representative of each class with Arith = TRUE (posterior      *)
+(* covariances over rationals); the history run ranges over all of Hows    *)
+(* with Arith = FALSE (NoiseIsOwn / NoiseFloor only: by NoiseIsOwn the     *)
+(* covariance is a function of lik and obs alone) and generates the        *)
+(* histories that are replayed.                                            *)
+(* The formulas are the denotation (LinAlg.tla CondCov).  The replay walks *)
+(* every generated history on real models (kernels x geometries x          *)
+(* likelihood classes) and checks the same invariants after every step     *)
+(* through eigenvalues in float64.                                         *)
+(*                                                                         *)
+(* Part "lattice": the kernel PSD lattice - kernel family x every valid    *)
+(* value of its discrete constructor argument x input dimension 1..MaxDim  *)
+(* x ARD / shared lengthscale x lengthscale scale x geometry class, on the *)
+(* documented domain only (InDomain).  The geometry classes include the    *)
+(* ones that make indefiniteness VISIBLE: "dense" (a cloud of many points  *)
+(* per support / lengthscale volume with exact and near duplicates) and    *)
+(* "grid" (a regular lattice).  Compact-support kernels are positive       *)
+(* definite in R^d only if the exponent j is large enough:                 *)
+(*      j >= floor(d / 2) + q + 1        (Wendland; R&W 4.21)              *)
+(* The spec carries the exponent the code uses (CodeJ: from the dimension  *)
+(* of the INPUTS, not from the number of lengthscales, which is 1 without  *)
+(* ARD), states SupportOK over all cells, and evaluates the documented     *)
+(* function with that exponent exactly at rational radii (the PD           *)
+(* certificate the replay compares the real kernel with, since sampling    *)
+(* Gram matrices cannot see a too small j for q >= 2).                     *)
 (***************************************************************************)
 EXTENDS LinAlg, TLC
 
-CONSTANTS Pool,      \* sequence of integer feature rows (train candidates)
+CONSTANTS Part,
+          Pool,      \* sequence of integer feature rows (train candidates)
           Test,      \* sequence of integer feature rows (test points)
-          S2,        \* noise variance (positive integer)
-          MaxN
+          S2,        \* learned noise variance (positive integer)
+          Levels,    \* sequence of positive rationals <<n, d>>: the fixed noise levels an observation can carry
+          Liks, Hows, MaxChunk,
+          Modes,     \* how predictions are computed ("exact": from K + noise; "fast": from the cached root, fast_pred_var)
+          Arith,     \* TRUE: posterior covariances are evaluated (exact rationals); FALSE: bookkeeping only
+          MaxN,      \* number of observations of a complete history
+          MaxDim, Scales
 
-VARIABLES train, var
-vars == <<train, var>>
+VARIABLES lik,       \* noise structure of the likelihood
+          mode,      \* prediction mode: the DENOTATION (PostCov) does not mention it
+          obs,       \* observations so far: sequence of [p, l]
+          fixed,     \* the per-observation noise vector the likelihood STORES (code-shaped)
+          hist,      \* how the observations were added: sequence of [how, m]
+          cov, prev, \* posterior covariance at the test points now / before the last step
+          c, out     \* part "lattice": the cell and what the spec says about it
+vars == <<lik, mode, obs, fixed, hist, cov, prev, c, out>>
 
+\* ============================ part "growth" ===================================================
+Points(o) == [k \in 1..Len(o) |-> o[k].p]
 Feat(seq) == FromInt([k \in 1..Len(seq) |-> Pool[seq[k]]])
 TestF == FromInt(Test)
 Kxx(seq) == LET G == Feat(seq) IN MMul(G, Tr(G))
 Kss == MMul(TestF, Tr(TestF))
 Ksx(seq) == MMul(TestF, Tr(Feat(seq)))
-Anoise(seq) == MAdd(Kxx(seq), MScale(R(S2), Ident(Len(seq))))
 
-PostCov(seq) == IF seq = <<>> THEN Kss ELSE CondCov(Kss, Ksx(seq), Anoise(seq))
-Variances(seq) == DiagOf(PostCov(seq))
+HasFixed(lk) == lk \in {"fixed", "fixed+learned"}
+\* "hetero": the noise model is a function of the input - here the level of the pool point
+HLevel(p) == ((p - 1) % Len(Levels)) + 1
+\* an observation's level is a free choice only when the likelihood stores it
+LevelChoices(lk, p) == IF HasFixed(lk) THEN 1..Len(Levels) ELSE IF lk = "hetero" THEN {HLevel(p)} ELSE {1}
 
-Init == train = <<>> /\ var = Variances(<<>>)
-AddObservation(p) ==
-  /\ Len(train) < MaxN
-  /\ train' = Append(train, p)
-  /\ var' = Variances(train')
-Next == \E p \in 1..Len(Pool) : AddObservation(p)
+\* DENOTATION: the noise of an observation is a function of the observation and the likelihood's parameters alone
+OwnNoise(lk, o) ==
+  CASE lk = "homo"          -> R(S2)
+    [] lk = "fixed"         -> Levels[o.l]
+    [] lk = "fixed+learned" -> RAdd(Levels[o.l], R(S2))
+    [] lk = "hetero"        -> Levels[HLevel(o.p)]
+
+\* CODE-SHAPED: what the likelihood adds to K(X, X) given its bookkeeping (_shaped_noise_covar)
+NoiseVec(lk, o, fx) ==
+  [k \in 1..Len(o) |->
+     CASE lk = "homo"          -> R(S2)
+       [] lk = "fixed"         -> fx[k]
+       [] lk = "fixed+learned" -> RAdd(fx[k], R(S2))            \* second_noise_covar on top of the stored noise
+       [] lk = "hetero"        -> Levels[HLevel(o[k].p)]]
+
+Anoise(lk, o, fx) == MAdd(Kxx(Points(o)), Diag(NoiseVec(lk, o, fx)))
+PostCov(lk, o, fx) == IF o = <<>> THEN Kss ELSE CondCov(Kss, Ksx(Points(o)), Anoise(lk, o, fx))
+
+LevelsOf(ch) == [k \in 1..Len(ch) |-> Levels[ch[k].l]]
+\* the stored vector after a step
+StoredAfter(how, lk, o2, fx, ch) ==
+  IF ~HasFixed(lk) THEN <<>>
+  ELSE IF how \in {"fresh", "set"} THEN LevelsOf(o2)          \* constructor / lik.noise = all the levels
+  ELSE fx \o LevelsOf(ch)                                    \* get_fantasy_likelihood: cat([old stored noise, new noise])
+
+Chunks(lk) == UNION {[1..m -> [p : 1..Len(Pool), l : 1..Len(Levels)]] : m \in 1..MaxChunk}
+ValidChunk(lk, ch) == \A k \in 1..Len(ch) : ch[k].l \in LevelChoices(lk, ch[k].p)
+
+Add(how, ch) ==
+  /\ Part = "growth"
+  /\ Len(obs) + Len(ch) <= MaxN
+  /\ ValidChunk(lik, ch)
+  /\ (obs = <<>> => how = "fresh")                           \* there is no model to update yet
+  /\ LET o2 == obs \o ch
+         f2 == StoredAfter(how, lik, o2, fixed, ch)
+     IN /\ obs' = o2
+        /\ fixed' = f2
+        /\ cov' = IF Arith THEN PostCov(lik, o2, f2) ELSE cov
+  /\ prev' = cov
+  /\ hist' = Append(hist, [how |-> how, m |-> Len(ch)])
+  /\ UNCHANGED <<lik, mode, c, out>>
+
+GrowthInit ==
+  /\ lik \in Liks /\ mode \in Modes /\ obs = <<>> /\ fixed = <<>> /\ hist = <<>> /\ cov = Kss /\ prev = Kss
+  /\ c = "-" /\ out = "-"
+
+\* ---- invariants ----
+InGrowth == Part = "growth"
+NoiseIsOwn       == InGrowth => NoiseVec(lik, obs, fixed) = [k \in 1..Len(obs) |-> OwnNoise(lik, obs[k])]
+MinNoise         == LET all == {Levels[k] : k \in 1..Len(Levels)} \cup {R(S2)} IN CHOOSE a \in all : \A b \in all : RLe(a, b)
+NoiseFloor       == InGrowth => \A k \in 1..Len(obs) : RLe(MinNoise, NoiseVec(lik, obs, fixed)[k])
+PriorPSD         == InGrowth => IsSym(Kss) /\ IsPSD(Kss)
+                         /\ (obs # <<>> /\ Arith => IsSym(Kxx(Points(obs))) /\ IsPSD(Kxx(Points(obs))) /\ IsPD(Anoise(lik, obs, fixed)))
+PosteriorPSD     == InGrowth => IsSym(cov) /\ IsPSD(cov)
+ReductionPSD     == InGrowth => IsPSD(MSub(Kss, cov))
+\* prev - cov mixes two denominators (det of the old and of the new system): subtract over the least common denominator and
+\* decide PSD on the integer matrix L * (prev - cov), L > 0, so that TLC's 32-bit integers suffice (small pools only)
+Lcm(a, b) == (a \div Gcd(a, b)) * b
+RECURSIVE LcmSeq(_)
+LcmSeq(q) == IF q = <<>> THEN 1 ELSE Lcm(Head(q)[2], LcmSeq(Tail(q)))
+DenLcm(M) == LcmSeq([k \in 1..(Rows(M) * Cols(M)) |-> M[((k - 1) \div Cols(M)) + 1][((k - 1) % Cols(M)) + 1]])
+ScaledInt(M, L) == Mk(Rows(M), Cols(M), LAMBDA i, j : M[i][j][1] * (L \div M[i][j][2]))
+StepDiffInt == LET L == Lcm(DenLcm(prev), DenLcm(cov)) A == ScaledInt(prev, L) B == ScaledInt(cov, L)
+               IN Mk(Rows(A), Cols(A), LAMBDA i, j : R(A[i][j] - B[i][j]))
+StepReductionPSD == InGrowth => IsPSD(StepDiffInt)
+VarNonNegative   == InGrowth => \A k \in 1..Rows(cov) : RLe(RZero, cov[k][k])
+VarianceMonotone == [][ InGrowth => \A k \in 1..Rows(cov) : RLe(cov'[k][k], cov[k][k]) ]_vars
+
+\* ============================ part "lattice" ==================================================
+\* family: discrete constructor-argument values (0 = no such argument), whether it takes ard_num_dims, documented domain,
+\* translation invariance (only those are exercised at a large common offset)
+Fam(n, a, ard, dom, stat) == [name |-> n, args |-> a, ard |-> ard, dom |-> dom, stat |-> stat]
+Families == {
+  Fam("rbf", {0}, TRUE, "any", TRUE),
+  Fam("matern", {1, 3, 5}, TRUE, "any", TRUE),                 \* nu = arg / 2
+  Fam("rq", {0}, TRUE, "any", TRUE),
+  Fam("periodic", {0}, TRUE, "any", TRUE),
+  Fam("cosine", {0}, FALSE, "d1", TRUE),
+  Fam("linear", {0}, TRUE, "any", FALSE),
+  Fam("poly", {1, 2, 3, 4}, FALSE, "any", FALSE),              \* power
+  Fam("pwpoly", {0, 1, 2, 3}, TRUE, "any", TRUE),              \* q
+  Fam("sm", {1, 2, 3}, FALSE, "any", TRUE),                    \* num_mixtures
+  Fam("sdelta", {2, 5}, FALSE, "any", TRUE),                   \* num_deltas
+  Fam("cylindrical", {1, 2, 3, 4}, FALSE, "unitball", FALSE),  \* num_angular_weights
+  Fam("rff", {4, 8}, FALSE, "any", FALSE),                     \* num_samples
+  Fam("constant", {0}, FALSE, "any", FALSE),
+  Fam("arc", {0}, TRUE, "any", FALSE),
+  Fam("hamming", {2, 3}, FALSE, "onehot", FALSE),              \* vocab_size
+  Fam("scale", {0}, TRUE, "any", TRUE),
+  Fam("sum", {0}, TRUE, "any", TRUE),
+  Fam("prod", {0}, TRUE, "any", TRUE),
+  Fam("addstruct", {0}, FALSE, "any", FALSE),
+  Fam("prodstruct", {0}, FALSE, "any", FALSE),
+  Fam("newton", {1, 2, 3}, FALSE, "any", FALSE),               \* max_degree (capped at d)
+  Fam("rbfgrad", {0}, TRUE, "any", FALSE),
+  Fam("rbfgradgrad", {0}, TRUE, "any", FALSE),
+  Fam("matern52grad", {0}, TRUE, "any", FALSE),
+  Fam("polygrad", {1, 2, 3}, FALSE, "any", FALSE),             \* power
+  Fam("multitask", {1, 2}, FALSE, "any", FALSE),               \* rank
+  Fam("lcm", {1, 2}, FALSE, "any", FALSE),                     \* rank
+  Fam("gridinterp", {0}, FALSE, "box3", FALSE),
+  Fam("inducing", {0}, TRUE, "any", FALSE) }
+
+Geoms == {"spread", "duplicates", "near-coincident", "clustered", "far-offset", "dense", "grid"}
+DimsOf(f) == CASE f.dom = "d1" -> {1} [] f.dom = "box3" -> 1..(IF MaxDim < 3 THEN MaxDim ELSE 3) [] OTHER -> 1..MaxDim
+GeomsOf(f) == IF f.stat THEN Geoms ELSE Geoms \ {"far-offset"}
+ArdOf(f) == IF f.ard THEN {FALSE, TRUE} ELSE {FALSE}
+\* "dense" / "grid" are stated relative to the lengthscale (points per support volume): they are scaled with it, one scale suffices
+ScalesOf(g) == IF g \in {"dense", "grid"} THEN {0} ELSE Scales
+CellsOf(f) == UNION {{[fam |-> f.name, arg |-> a, d |-> d, ard |-> r, geom |-> g, ls |-> s, dom |-> f.dom] :
+                        a \in f.args, d \in DimsOf(f), r \in ArdOf(f), s \in ScalesOf(g)} : g \in GeomsOf(f)}
+Cells == UNION {CellsOf(f) : f \in Families}
+
+FamilyOf(cell) == CHOOSE f \in Families : f.name = cell.fam
+InDomain(cell) ==
+  LET f == FamilyOf(cell)
+  IN /\ cell.arg \in f.args /\ cell.d \in DimsOf(f) /\ (cell.ard => f.ard)
+     /\ (cell.fam = "cosine" => cell.d = 1)
+     /\ (cell.geom = "far-offset" => f.stat)
+     /\ cell.ls \in ScalesOf(cell.geom)
+
+\* ---- compact support: the Wendland exponent ----
+InputDim(cell) == cell.d                                      \* x1.shape[-1]
+NumLengthscales(cell) == IF cell.ard THEN cell.d ELSE 1       \* lengthscale.shape[-1]: NOT the dimension of the inputs
+CodeJ(cell) == (InputDim(cell) \div 2) + cell.arg + 1         \* j = floor(D / 2) + q + 1 with D from the inputs
+MinJ(d, q)  == (d \div 2) + q + 1                             \* positive definite in R^d iff j >= MinJ(d, q)
+
+RECURSIVE IPow(_, _)
+IPow(a, n) == IF n = 0 THEN 1 ELSE a * IPow(a, n - 1)
+\* the documented piecewise polynomial (1 - r)_+^(j+q) * p_q(j, r) at r = a / b, over the common denominator (integers
+\* throughout: TLC's integers are 32 bit)
+PolyNum(j, q, a, b) ==
+  CASE q = 0 -> 1
+    [] q = 1 -> (j + 1) * a + b
+    [] q = 2 -> 3 * b * b + 3 * (j + 2) * a * b + (j * j + 4 * j + 3) * a * a
+    [] q = 3 -> 15 * b * b * b + 15 * (j + 3) * a * b * b + (6 * j * j + 36 * j + 45) * a * a * b
+                + (j * j * j + 9 * j * j + 23 * j + 15) * a * a * a
+PolyDen(q, b) == CASE q = 0 -> 1 [] q = 1 -> b [] q = 2 -> 3 * b * b [] q = 3 -> 15 * b * b * b
+Wend(j, q, r) ==
+  LET a == r[1] b == r[2]
+  IN IF a >= b THEN RZero ELSE RQ(IPow(b - a, j + q) * PolyNum(j, q, a, b), IPow(b, j + q) * PolyDen(q, b))
+Radii == << <<0, 1>>, <<1, 4>>, <<1, 2>>, <<3, 4>>, <<1, 1>>, <<5, 4>> >>
+
+Says(cell) ==
+  [psd |-> TRUE,                                              \* in its documented domain every cell is PSD
+   j   |-> IF cell.fam = "pwpoly" THEN CodeJ(cell) ELSE 0,
+   phi |-> IF cell.fam = "pwpoly" THEN [k \in 1..Len(Radii) |-> Wend(CodeJ(cell), cell.arg, Radii[k])] ELSE <<>>]
+
+LatticeInit ==
+  /\ c \in Cells /\ out = Says(c)
+  /\ lik = "-" /\ mode = "-" /\ obs = <<>> /\ fixed = <<>> /\ hist = <<>> /\ cov = <<>> /\ prev = <<>>
+
+DomainOK  == Part = "lattice" => InDomain(c) /\ out.psd
+SupportOK == Part = "lattice" /\ c.fam = "pwpoly" =>
+               /\ CodeJ(c) >= MinJ(c.d, c.arg)
+               /\ out.phi[1] = ROne /\ out.phi[5] = RZero /\ out.phi[6] = RZero      \* k(0) = 1, support = unit ball
+               /\ \A k \in 2..4 : RLt(RZero, out.phi[k]) /\ RLt(out.phi[k], ROne)     \* a correlation strictly inside the support
+
+\* ==============================================================================================
+Init == IF Part = "growth" THEN GrowthInit ELSE LatticeInit
+Next == \E how \in Hows : \E ch \in Chunks(lik) : Add(how, ch)
 Spec == Init /\ [][Next]_vars
-
-PriorPSD     == IsSym(Kss) /\ IsPSD(Kss) /\ (train # <<>> => IsSym(Kxx(train)) /\ IsPSD(Kxx(train)) /\ IsPD(Anoise(train)))
-PosteriorPSD == IsSym(PostCov(train)) /\ IsPSD(PostCov(train))
-ReductionPSD == IsPSD(MSub(Kss, PostCov(train)))
-VarianceMonotone == [][ \A k \in 1..Len(var) : RLe(var'[k], var[k]) ]_vars
-VarNonNegative == \A k \in 1..Len(var) : RLe(RZero, var[k])
 =============================================================================
